@@ -72,6 +72,22 @@ variable {σ : Type} (E : Env σ)
 @[grind =] theorem postingOpen_dy (st : PState σ) : (postingOpen E st).2.defaultYear = st.defaultYear := by
   fun_cases postingOpen E st <;> (try simp +zetaDelta only [] at *) <;> (first | grind | (simp_all; done) | (simp_all; grind))
 
+@[grind =] theorem lineComment_dy (st : PState σ) : (lineComment E st).2.defaultYear = st.defaultYear := by
+  fun_cases lineComment E st <;> (try simp +zetaDelta only [] at *) <;> (first | grind | (simp_all; done) | (simp_all; grind))
+
+@[grind =] theorem postingClosing_dy (cl : Option TokType) (st : PState σ) :
+    (postingClosing E cl st).defaultYear = st.defaultYear := by
+  unfold postingClosing; grind
+
+@[grind =] theorem postingAmount_dy (st : PState σ) : (postingAmount E st).2.defaultYear = st.defaultYear := by
+  fun_cases postingAmount E st <;> (try simp +zetaDelta only [] at *) <;> (first | grind | (simp_all; done) | (simp_all; grind))
+
+@[grind =] theorem postingCost_dy (st : PState σ) : (postingCost E st).2.defaultYear = st.defaultYear := by
+  fun_cases postingCost E st <;> (try simp +zetaDelta only [] at *) <;> (first | grind | (simp_all; done) | (simp_all; grind))
+
+@[grind =] theorem postingAssertion_dy (st : PState σ) : (postingAssertion E st).2.defaultYear = st.defaultYear := by
+  fun_cases postingAssertion E st <;> (try simp +zetaDelta only [] at *) <;> (first | grind | (simp_all; done) | (simp_all; grind))
+
 @[grind =] theorem postingTail_dy (cl : Option TokType) (st : PState σ) : (postingTail E cl st).2.defaultYear = st.defaultYear := by
   fun_cases postingTail E cl st <;> (try simp +zetaDelta only [] at *) <;> (first | grind | (simp_all; done) | (simp_all; grind))
 
@@ -120,9 +136,6 @@ variable {σ : Type} (E : Env σ)
 
 @[grind =] theorem accountNameRest_dy (nm : Bytes) (st : PState σ) : (accountNameRest E nm st).2.defaultYear = st.defaultYear := by
   fun_cases accountNameRest E nm st <;> (try simp +zetaDelta only [] at *) <;> (first | grind | (simp_all; done) | (simp_all; grind))
-
-@[grind =] theorem lineComment_dy (st : PState σ) : (lineComment E st).2.defaultYear = st.defaultYear := by
-  fun_cases lineComment E st <;> (try simp +zetaDelta only [] at *) <;> (first | grind | (simp_all; done) | (simp_all; grind))
 
 @[grind =] theorem parseAccountDirective_dy (sp : Pos) (st : PState σ) : (parseAccountDirective E sp st).2.defaultYear = st.defaultYear := by
   fun_cases parseAccountDirective E sp st <;> (try simp +zetaDelta only [] at *) <;> (first | grind | (simp_all; done) | (simp_all; grind))
